@@ -11,7 +11,7 @@ import (
 
 func init() {
 	register("C16", propMeta{
-		Explanation: "E-PAIR + E-OWN + E-CONST on proxy/lib. O-1 slot pairing: tokens.get() is called only from Start and every path from it reaches runSession; over runSession's CFG every path from entry to a return carries exactly one release event, where a release event is a call of tokens.ret() or the hand-off edge 'case <-dataChan' of the final select (path enumeration with event counts, sensitive to repeated tests of one condition). The hand-off is verified separately: dataChan is closed only inside the OnDataChannel callback of makePeerConnectionFromOffer, which starts the handler goroutine on every path that closes it; the handler passed by runSession resolves to SnowflakeProxy.datachannelHandler, which releases exactly once (one deferred tokens.ret() in its entry block, no other). O-2 counter and semaphore move together: get adds +1 and sends, ret adds -1 and receives, both channel operations behind capacity != 0, ch = make(chan struct{}, capacity), no other access to ch or clients except the atomic load in count. O-3 reported load: the clients argument of the poll request is int((tokens.count()/8)*8) and is recomputed in the same loop iteration as the poll. O-4: on the exits after the peer connection was created the connection is closed before the slot is released. A missing or doubled release is a path in the source on which capacity is lost or exceeded. Added after the third seeding round: O-5 the relay dial uses a dialer with a non-zero HandshakeTimeout (websocket.DefaultDialer or a literal that sets it), so a silent relay cannot hold the slot forever.",
+		Explanation: "E-PAIR + E-OWN + E-CONST on proxy/lib. O-1 slot pairing: tokens.get() is called only from Start and every path from it reaches runSession; over runSession's CFG every path from entry to a return carries exactly one release event, where a release event is a call of tokens.ret() or the hand-off edge 'case <-dataChan' of the final select (path enumeration with event counts, sensitive to repeated tests of one condition). The hand-off is verified separately: dataChan is closed only inside the OnDataChannel callback of makePeerConnectionFromOffer, which starts the handler goroutine on every path that closes it; the handler passed by runSession resolves to SnowflakeProxy.datachannelHandler, which releases exactly once (one deferred tokens.ret() in its entry block, no other). O-2 counter and semaphore move together: get adds +1 and sends, ret adds -1 and receives, both channel operations behind capacity != 0, ch = make(chan struct{}, capacity), no other access to ch or clients except the atomic load in count. O-3 reported load: the clients argument of the poll request is int((tokens.count()/8)*8) and is recomputed in the same loop iteration as the poll. O-4: on the exits after the peer connection was created the connection is closed before the slot is released. A missing or doubled release is a path in the source on which capacity is lost or exceeded. Added after the third seeding round: O-5 the relay dial uses a dialer with a non-zero HandshakeTimeout (websocket.DefaultDialer or a literal that sets it), so a silent relay cannot hold the slot forever. Added after the fourth seeding round: O-6 each copying goroutine of copyLoop signals the done channel (close or send, directly or through Once.Do) on every return, so that datachannelHandler's deferred release runs whatever io.Copy returned.",
 		NotDecided:  "the race 'timeout fires while the data channel opens' (needs a happens-before argument about pion callbacks), a client opening a second data channel, sessions run concurrently by embedding applications.",
 		Assumptions: []string{"pion invokes OnDataChannel at most once per peer connection in the analysed scenarios", "log.Fatalf paths are process exit and carry no obligation"},
 	}, runC16)
@@ -311,6 +311,7 @@ func runC16(c *Ctx) {
 	// ---------- O-2 counter and semaphore ----------
 	c.checkTokens()
 	c.checkRelayDialBounded()
+	c.checkCopyLoopEnds()
 
 	// ---------- O-3 reported load ----------
 	rule3 := "O-3 reported load"
@@ -620,5 +621,88 @@ func (c *Ctx) checkRelayDialBounded() {
 	}
 	if n == 0 {
 		c.undecided(rule, "WebSocket dial in proxy/lib", "-", "none found")
+	}
+}
+
+// checkCopyLoopEnds: copyLoop returns - and with it datachannelHandler, whose
+// deferred tokens.ret() frees the slot - only when one of its two copying
+// goroutines signals the local done channel. Every returning path of those
+// goroutine bodies performs the signal (close or send, directly or through
+// sync.Once.Do), whatever io.Copy returned.
+func (c *Ctx) checkCopyLoopEnds() {
+	p := c.P
+	rule := "O-6 a session that ended releases its slot"
+	cl := p.Fn("proxy/lib", "copyLoop")
+	if cl == nil {
+		c.undecided(rule, "proxy/lib.copyLoop", "-", "anchor does not resolve")
+		return
+	}
+	doneCls := ""
+	for _, fn := range helperFns(cl, 1) {
+		for _, op := range chanOpsIn(p, fn) {
+			if op.Dir == chRecv && op.Sel != nil && strings.HasPrefix(op.Class, "local:") {
+				doneCls = op.Class
+			}
+		}
+	}
+	if doneCls == "" {
+		c.okTrivial(rule, "copyLoop waits for its copying goroutines", p.Pos(cl.Pos()), "no wait on a local channel: obligation not evaluated")
+		return
+	}
+	mkIsSignal := func(accepted map[string]bool) func(ssa.Instruction) bool {
+		signalsIn := func(fn *ssa.Function) bool {
+			for _, op := range chanOpsIn(p, fn) {
+				if (op.Dir == chClose || op.Dir == chSend) && accepted[op.Class] {
+					return true
+				}
+			}
+			return false
+		}
+		return func(in ssa.Instruction) bool {
+			for _, op := range chanOpsIn(p, in.Parent()) {
+				if op.Instr == in && (op.Dir == chClose || op.Dir == chSend) && accepted[op.Class] {
+					return true
+				}
+			}
+			ci, ok := in.(ssa.CallInstruction)
+			if !ok || calleeName(ci) != "(*sync.Once).Do" {
+				return false
+			}
+			switch v := strip(ci.Common().Args[1]).(type) {
+			case *ssa.MakeClosure:
+				if f, okf := v.Fn.(*ssa.Function); okf {
+					return signalsIn(f)
+				}
+			case *ssa.Function:
+				return signalsIn(v)
+			}
+			return false
+		}
+	}
+	n := 0
+	for _, fn := range helperFns(cl, 1) {
+		for _, ci := range callsIn(fn) {
+			g, ok := ci.(*ssa.Go)
+			if !ok {
+				continue
+			}
+			body := staticCallee(g)
+			if body == nil || body.Blocks == nil {
+				continue
+			}
+			n++
+			// the done channel may reach the body as a captured variable or as a parameter
+			accepted := map[string]bool{doneCls: true}
+			for i, a := range g.Call.Args {
+				if i < len(body.Params) && chanClass(p, a) == doneCls {
+					accepted["param:"+body.Params[i].Name()] = true
+				}
+			}
+			path := escapesWithout(body.Blocks[0], mkIsSignal(accepted))
+			c.check(path == nil, rule, "each copying goroutine of copyLoop signals its end on every return", p.instrPos(g), "signal on "+doneCls, "a copying goroutine can return without signalling (for example after a copy error): when both directions end that way copyLoop never returns, datachannelHandler never runs its deferred tokens.ret() and the slot is held for ever", p.pathString(path)...)
+		}
+	}
+	if n == 0 {
+		c.undecided(rule, "copyLoop's copying goroutines", p.Pos(cl.Pos()), "no go statement found although copyLoop waits on "+doneCls)
 	}
 }
